@@ -406,7 +406,11 @@ def load_cfg(pid):
 
 
 def all_ids():
-    return sorted(f[:-5] for f in os.listdir(os.path.join(ROOT, "props")) if f.endswith(".json"))
+    """Properties that are claimed (props/ready.txt); setup builds exactly those."""
+    rp = os.path.join(ROOT, "props", "ready.txt")
+    ready = set(open(rp).read().split()) if os.path.exists(rp) else set()
+    return sorted(f[:-5] for f in os.listdir(os.path.join(ROOT, "props"))
+                  if f.endswith(".json") and f[:-5] in ready)
 
 
 def setup():
@@ -414,14 +418,17 @@ def setup():
     rc, out = run([sys.executable, os.path.join(ROOT, "tools", "extract_tables.py"), "--all"])
     print(out)
     with Lock("lake"):
-        targets = ["YashModel"]
+        targets = []
         for pid in all_ids():
             c = load_cfg(pid)
             targets += c.get("theorem_modules", []) + [c["exe"]]
         rc1, out = run(["lake", "build"] + sorted(set(targets)), cwd=LEAN, timeout=7200)
         print(out[-3000:])
     with Lock("cargo"):
-        rc2, out = run(["cargo", "build", "--offline", "--bins"], cwd=HARNESS, timeout=7200)
+        bins = []
+        for pid in all_ids():
+            bins += ["--bin", load_cfg(pid)["harness_bin"]]
+        rc2, out = run(["cargo", "build", "--offline"] + bins, cwd=HARNESS, timeout=7200)
         print(out[-3000:])
     log(f"setup done in {time.time() - t0:.0f}s (lake rc={rc1}, cargo rc={rc2})")
     return 0 if rc1 == 0 and rc2 == 0 else 1
